@@ -35,6 +35,7 @@ type srcFS struct {
 	copying   int64
 	maxCopies int64
 	failOpen  string // the next Open of this name fails (once)
+	onFail    func(name string) // called when a Read failure is injected
 }
 
 func newSrcFS(fs hackpadfs.FS) *srcFS {
@@ -80,6 +81,9 @@ func (f *srcFile) Read(p []byte) (int, error) {
 		f.s.pause(f.name, idx)
 	}
 	if f.name == f.s.failName && idx == f.s.failRead {
+		if f.s.onFail != nil {
+			f.s.onFail(f.name)
+		}
 		return 0, errInjected
 	}
 	return f.File.Read(p)
@@ -107,6 +111,44 @@ type storeFS struct {
 	mu      sync.Mutex
 	// removeHook, when set, runs before every Remove reaches the store (full store only)
 	removeHook func(name string)
+	// events: every call that reached the store (and injected source failures), in real-time order
+	events []string
+	// removeFails: Remove is refused (the partial copy cannot be removed)
+	removeFails bool
+}
+
+func (s *storeFS) event(what string) {
+	s.mu.Lock()
+	s.events = append(s.events, what)
+	s.mu.Unlock()
+}
+
+// concEvents renders the recorded calls on one name as the model's event list
+func (s *storeFS) concEvents(name string) string {
+	s.mu.Lock()
+	defer s.mu.Unlock()
+	var out []string
+	for _, e := range s.events {
+		f := strings.Fields(e)
+		if len(f) != 2 || f[1] != name {
+			continue
+		}
+		switch f[0] {
+		case "openfile":
+			out = append(out, "VCreate")
+		case "write":
+			out = append(out, "VWrite")
+		case "close":
+			out = append(out, "VClose")
+		case "remove":
+			out = append(out, "VRemove")
+		case "removefail":
+			out = append(out, "VRemoveFail")
+		case "srcfail":
+			out = append(out, "VSrcFail")
+		}
+	}
+	return cList(out)
 }
 
 func (s *storeFS) tick(what string) error {
@@ -115,6 +157,9 @@ func (s *storeFS) tick(what string) error {
 	n := s.calls
 	s.calls++
 	s.log = append(s.log, what)
+	if !strings.HasPrefix(what, "close ") { // Close records its own event, once per handle
+		s.events = append(s.events, what)
+	}
 	if n == s.failAt {
 		return &hackpadfs.PathError{Op: "injected", Path: what, Err: errInjected}
 	}
@@ -126,6 +171,8 @@ type storeFile struct {
 	s    *storeFS
 	name string
 	w    bool
+	// closedOnce: copyFile closes its handle explicitly and once more in a deferred call; only the first Close is a store call
+	closedOnce bool
 }
 
 func (f *storeFile) Write(p []byte) (int, error) {
@@ -140,6 +187,10 @@ func (f *storeFile) Write(p []byte) (int, error) {
 }
 func (f *storeFile) Close() error {
 	if f.w {
+		if !f.closedOnce {
+			f.closedOnce = true
+			f.s.event("close " + f.name)
+		}
 		if err := f.s.tick("close " + f.name); err != nil {
 			_ = f.File.Close()
 			return err
@@ -163,7 +214,7 @@ func (s *storeFS) Open(name string) (hackpadfs.File, error) {
 	if err != nil {
 		return nil, err
 	}
-	return &storeFile{f, s, name, false}, nil
+	return &storeFile{File: f, s: s, name: name}, nil
 }
 func (s *storeFS) OpenFile(name string, flag int, perm hackpadfs.FileMode) (hackpadfs.File, error) {
 	if err := s.tick("openfile " + name); err != nil {
@@ -173,7 +224,7 @@ func (s *storeFS) OpenFile(name string, flag int, perm hackpadfs.FileMode) (hack
 	if err != nil {
 		return nil, err
 	}
-	return &storeFile{f, s, name, true}, nil
+	return &storeFile{File: f, s: s, name: name, w: true}, nil
 }
 func (s *storeFS) Mkdir(name string, perm hackpadfs.FileMode) error {
 	if err := s.tick("mkdir " + name); err != nil {
@@ -182,6 +233,11 @@ func (s *storeFS) Mkdir(name string, perm hackpadfs.FileMode) error {
 	return s.fs.Mkdir(name, perm)
 }
 func (s storeFull) Remove(name string) error {
+	if s.removeFails {
+		s.event("removefail " + name)
+		return &hackpadfs.PathError{Op: "remove", Path: name, Err: errInjected}
+	}
+	s.event("remove " + name)
 	if s.removeHook != nil {
 		s.removeHook(name)
 	}
@@ -750,7 +806,7 @@ func runC11(r *Rng, n int, replay string) {
 		for trial := 0; trial < 2 && id < n; trial++ {
 			k := 2 + (it+trial)%3
 			src := mkSrc()
-			_, store := newStore(minimal)
+			stc, store := newStore(minimal)
 			var copying, maxCopies int64
 			var seen sync.Map
 			gate := make(chan struct{}, 64)
@@ -812,19 +868,34 @@ func runC11(r *Rng, n int, replay string) {
 				c.fail(fmt.Sprintf("%s: %d copies of the file were in progress at the same time", hdr, maxCopies), "concurrent:copies")
 			}
 			c.Text = append(c.Text, fmt.Sprintf("results %v, max simultaneous copies %d", results, maxCopies))
+			if size <= 2048 && c.Oracle == "" {
+				// the model must accept the calls the store saw, and produce this many complete results and errors
+				nc, ne := 0, 0
+				for _, res := range results {
+					if res == "complete" {
+						nc++
+					} else {
+						ne++
+					}
+				}
+				c.Coq = fmt.Sprintf("(%s, %s, %s, %s, %s)", cBytes(data), cNat(k), stc.concEvents(name), cNat(nc), cNat(ne))
+				c.CType, c.Check = "C11conc_case", "C11conc_check"
+			}
 			emit(c)
 		}
 		// a failing fill while a second opener is already waiting for the same name: the clean-up of the partial copy
 		// (held up inside the store's Remove until the second opener is done, or 60 ms) must finish before the second
 		// opener is let in
-		if !minimal && size > 0 && id < n {
+		for variant := 0; variant < 2 && !minimal && size > 0 && id < n; variant++ {
 			src := mkSrc()
 			st, store := newStore(false)
+			st.removeFails = variant == 1 // the partial copy stays in the store and the name is marked instead
 			failIdx := int64(0)
 			if size > 512 {
 				failIdx = 1
 			}
 			src.failName, src.failRead = name, failIdx
+			src.onFail = func(nm string) { st.event("srcfail " + nm) }
 			aInCopy, bWaiting, bDone := make(chan struct{}), make(chan struct{}), make(chan struct{})
 			var once sync.Once
 			src.pause = func(nm string, idx int64) {
@@ -847,9 +918,10 @@ func runC11(r *Rng, n int, replay string) {
 			cfs, _ := cache.NewReadOnlyFS(src, store, cache.ReadOnlyOptions{})
 			c := &Case{ID: id, Kind: "concurrent-fault"}
 			id++
-			hdr := fmt.Sprintf("first open of %q (%d bytes) fails at source read %d while a second open of it waits; the store's Remove is slow", name, size, failIdx)
+			hdr := fmt.Sprintf("first open of %q (%d bytes) fails at source read %d while a second open of it waits; the store's Remove %s", name, size, failIdx,
+				map[bool]string{false: "is slow", true: "fails"}[st.removeFails])
 			c.Text = []string{hdr}
-			c.Cells = []string{fmt.Sprintf("concurrent-fault/size%d", size)}
+			c.Cells = []string{fmt.Sprintf("concurrent-fault/size%d/removefails=%v", size, st.removeFails)}
 			open1 := func() string {
 				defer func() { _ = recover() }()
 				f, err := cfs.Open(name)
@@ -891,8 +963,21 @@ func runC11(r *Rng, n int, replay string) {
 					}
 				}
 				// and afterwards, with nothing failing: the complete bytes or an error
-				if res := open1(); res != "complete" && res != "err" {
-					c.fail(fmt.Sprintf("%s: a later open got %s", hdr, res), "concurrent-fault:partial-later")
+				resC := open1()
+				if resC != "complete" && resC != "err" {
+					c.fail(fmt.Sprintf("%s: a later open got %s", hdr, resC), "concurrent-fault:partial-later")
+				}
+				if size <= 2048 && c.Oracle == "" {
+					nc, ne := 0, 0
+					for _, res := range []string{resA, resB, resC} {
+						if res == "complete" {
+							nc++
+						} else {
+							ne++
+						}
+					}
+					c.Coq = fmt.Sprintf("(%s, %s, %s, %s, %s)", cBytes(data), cNat(3), st.concEvents(name), cNat(nc), cNat(ne))
+					c.CType, c.Check = "C11conc_case", "C11conc_check"
 				}
 			}
 			emit(c)
